@@ -13,6 +13,7 @@ namespace smt
     namespace verif
     {
         SMT_EXPORT record_hook on_record = nullptr;
+        SMT_EXPORT record_hook on_new_clause = nullptr;
         SMT_EXPORT row_alloc_hook on_row_alloc = nullptr;
         SMT_EXPORT row_free_hook on_row_free = nullptr;
     }
@@ -63,6 +64,10 @@ namespace smt
 
     SMT_EXPORT bool sat_core::new_clause(std::vector<lit> lits) noexcept
     {
+#ifdef PSTLAB_ORATIO_VERIF
+        if (verif::on_new_clause)
+            verif::on_new_clause(*this, lits);
+#endif
         assert(root_level());
         // we check if the clause is already satisfied and filter out false/duplicate literals..
         std::sort(lits.begin(), lits.end(), [](const auto &l0, const auto &l1)
